@@ -39,6 +39,11 @@ pub struct C10Case {
     /// up-to-date check" and "while the record is computed" for the signal to land in.
     #[serde(default)]
     pub slow_check: bool,
+    /// Long-running build scripts run their command as a child of the shell (`sleep N` instead of
+    /// `exec sleep N`). The grand-child is outside the statement; only the shells zinoma spawned
+    /// are required to be gone, and the exit must still be prompt.
+    #[serde(default)]
+    pub non_exec: bool,
 }
 
 pub fn c10_case() -> impl Strategy<Value = C10Case> {
@@ -47,10 +52,10 @@ pub fn c10_case() -> impl Strategy<Value = C10Case> {
         prop::collection::vec(any::<u8>(), 1..=3),
         prop::collection::vec(any::<u8>(), 8),
         (any::<bool>(), 0u8..8, any::<u8>(), 0usize..5, 0u16..300, any::<bool>()),
-        (0u8..10, 100usize..700, 0u8..2, any::<bool>()),
+        (0u8..10, 100usize..700, 0u8..2, any::<bool>(), 0u8..3),
     )
         .prop_map(
-            |(raw, rootsel, longb, (watch, cause_b, failing_b, wait_for, delay_ms, double_signal), (large_b, large_size, large_shape, slow_check))| {
+            |(raw, rootsel, longb, (watch, cause_b, failing_b, wait_for, delay_ms, double_signal), (large_b, large_size, large_shape, slow_check, non_exec_b))| {
                 let graph = build_graph(&raw);
                 let n = graph.n();
                 let roots = pick_roots(&graph, &rootsel);
@@ -76,6 +81,7 @@ pub fn c10_case() -> impl Strategy<Value = C10Case> {
                     large,
                     large_shape: if large_shape == 0 { 1 } else { 5 },
                     slow_check: slow_check && large == 0,
+                    non_exec: non_exec_b == 0 && large == 0,
                 }
             },
         )
@@ -167,9 +173,9 @@ fn plan(c: &C10Case) -> Plan {
     }
 }
 
-fn write_c10_project(sb: &Sandbox, p: &Plan, slow_check: bool) -> std::path::PathBuf {
+fn write_c10_project(sb: &Sandbox, p: &Plan, slow_check: bool, non_exec: bool) -> std::path::PathBuf {
     let g = &p.graph;
-    let dir = write_c10_project_inner(sb, p);
+    let dir = write_c10_project_inner(sb, p, non_exec);
     if slow_check {
         // add a slow command input to every build target (rewrite the project files)
         for pr in 0..g.nproj {
@@ -193,7 +199,7 @@ fn write_c10_project(sb: &Sandbox, p: &Plan, slow_check: bool) -> std::path::Pat
     dir
 }
 
-fn write_c10_project_inner(sb: &Sandbox, p: &Plan) -> std::path::PathBuf {
+fn write_c10_project_inner(sb: &Sandbox, p: &Plan, non_exec: bool) -> std::path::PathBuf {
     let g = &p.graph;
     write_graph_project_with(sb, g, &|i| {
         let id = g.ids(i);
@@ -201,9 +207,10 @@ fn write_c10_project_inner(sb: &Sandbox, p: &Plan) -> std::path::PathBuf {
             Kind::Build => {
                 if p.long.contains(&i) {
                     format!(
-                        "echo \"S {id} $$\" >> \"$ZV_TRACE\"\ntouch \"$ZV_ROOT/started.{i}\"\nexec sleep 100000",
+                        "echo \"S {id} $$\" >> \"$ZV_TRACE\"\ntouch \"$ZV_ROOT/started.{i}\"\n{exec}sleep 100000",
                         id = id,
-                        i = i
+                        i = i,
+                        exec = if non_exec { "" } else { "exec " }
                     )
                 } else if p.failing == Some(i) {
                     let wait = match p.fail_after {
@@ -297,7 +304,7 @@ pub fn eval_c10(c: &C10Case) -> CaseResult {
     let p = plan(c);
     let g = &p.graph;
     let sb = Sandbox::new("c10");
-    let dir = write_c10_project(&sb, &p, c.slow_check);
+    let dir = write_c10_project(&sb, &p, c.slow_check, c.non_exec);
     let mut args: Vec<String> = vec![];
     if c.watch {
         args.push("--watch".into());
@@ -332,6 +339,9 @@ pub fn eval_c10(c: &C10Case) -> CaseResult {
     ];
     if c.slow_check {
         classes.push("slow-up-to-date-check".to_string());
+    }
+    if c.non_exec {
+        classes.push("non-exec-scripts".to_string());
     }
     let sample = json!({
         "mode": mode, "cause": format!("{:?}", cause), "wait_for": wait_for, "delay_ms": c.delay_ms,
@@ -445,7 +455,13 @@ pub fn eval_c10(c: &C10Case) -> CaseResult {
     // settle, then look for survivors (short-lived `cmd_stdout` shells of the up-to-date check are
     // neither builds nor services: give them time to end by themselves)
     std::thread::sleep(Duration::from_millis(if c.slow_check { 700 } else { 200 }));
-    let leaked = sb.marked_processes();
+    let mut leaked = sb.marked_processes();
+    if c.non_exec {
+        // grand-children of non-exec scripts are outside the statement: only the shells zinoma
+        // itself spawned (their pids are in the trace) have to be gone
+        let shells: BTreeSet<i32> = sb.trace().iter().map(|t| t.pid).collect();
+        leaked.retain(|p| shells.contains(p));
+    }
     let leaked_desc = describe(&leaked);
     let stderr = z.stderr_so_far();
 
